@@ -588,6 +588,22 @@ class Monitor(object):
                            list(fr) if fr else None, z0, None, ev.get("i"))
         vn.cal = "maybe"    # whether it can be added twice is not documented
 
+    def op_vnacal_add_calibration_own_name(self, a, bind, ev, ret):
+        """harness alias: vnacal_add_calibration under the string
+        vnacal_get_name(vc, ci) returned (skipped, i.e. no event value, when
+        there is no calibration at ci)"""
+        vc = self.vcs.get(a[0][1:])
+        if vc is None or not vc.known:
+            return
+        ci = self.val(a[1])
+        if ci in vc.cals:
+            self.op_vnacal_add_calibration([a[0], vc.cals[ci].name, a[2]],
+                                           bind, ev, ret)
+        else:
+            # the library has a calibration the model does not know about:
+            # stop asserting on this vnacal_t
+            vc.known = False
+
     def op_vnacal_delete_calibration(self, a, bind, ev, ret):
         vc = self.vcs.get(a[0][1:])
         if vc is None or not vc.known:
